@@ -18,6 +18,20 @@ static mut SESSION_BUF: [u8; 8 << 20] = [0; 8 << 20];
 static SESSION_LEN: AtomicUsize = AtomicUsize::new(0);
 pub static OP_SEQ: AtomicU64 = AtomicU64::new(0);
 pub static IN_CALL: AtomicBool = AtomicBool::new(false);
+/// Largest buffer (slice argument, slot or stream contents) the current session has handed to the crate.
+pub static INPUT_LEN: AtomicU64 = AtomicU64::new(0);
+
+/// One more public crate call starts inside an enclosing measured region (a harness-side loop over crate
+/// calls, e.g. `sbulk`): the watchdog's per-call clock starts again.
+pub fn heartbeat() {
+    OP_SEQ.fetch_add(2, Ordering::SeqCst);
+}
+pub fn input_reset() {
+    INPUT_LEN.store(0, Ordering::SeqCst);
+}
+pub fn input_seen(len: usize) {
+    INPUT_LEN.fetch_max(len as u64, Ordering::SeqCst);
+}
 
 pub fn session_reset() {
     SESSION_LEN.store(0, Ordering::SeqCst);
@@ -37,6 +51,11 @@ pub fn session_push(line: &[u8]) {
 
 /// Write the in-flight session and the reason to the died file and leave the process.
 pub fn die(why: &str) -> ! {
+    die_with(why, "")
+}
+
+/// `extra`: further members of the died record (`,"key":value...`), diagnostic only.
+pub fn die_with(why: &str, extra: &str) -> ! {
     let fd = DIED_FD.load(Ordering::SeqCst);
     if fd >= 0 {
         unsafe {
@@ -46,7 +65,7 @@ pub fn die(why: &str) -> ! {
             let mut msg = [0u8; 256];
             let pre = b"{\"op\":\"died\",\"why\":\"";
             let mut k = 0;
-            for b in pre.iter().chain(why.as_bytes().iter()).chain(b"\"}\n".iter()) {
+            for b in pre.iter().chain(why.as_bytes().iter()).chain(b"\"".iter()).chain(extra.as_bytes().iter()).chain(b"}\n".iter()) {
                 if k < msg.len() {
                     msg[k] = *b;
                     k += 1;
@@ -137,7 +156,16 @@ pub fn measured<R>(f: impl FnOnce() -> R) -> (Result<R, String>, u64, u64) {
     }
 }
 
-/// Watchdog: if one crate call stays in flight for more than `limit_ms` of the main thread's CPU
+/// CPU budget of one crate call: `limit_ms` for sessions whose inputs are at most 64 KiB (the size the
+/// termination property C16 speaks about), and proportionally more for larger inputs (megabyte objects,
+/// gigabyte read histories: their cost is memory traffic, whose speed is the machine's, not the crate's),
+/// capped so that a call that never returns is always noticed.
+pub const BUDGET_CAP_MS: u64 = 120_000;
+pub fn call_budget_ms(limit_ms: u64, input_len: u64) -> u64 {
+    limit_ms.saturating_mul(1 + input_len / 65536).min(limit_ms.max(BUDGET_CAP_MS))
+}
+
+/// Watchdog: if one crate call stays in flight for more than its budget of the main thread's CPU
 /// time, record the session and leave.
 pub fn start_watchdog(limit_ms: u64) {
     let mut cid: libc::clockid_t = 0;
@@ -158,8 +186,13 @@ pub fn start_watchdog(limit_ms: u64) {
             if seq != last_seq {
                 last_seq = seq;
                 start_cpu = now;
-            } else if IN_CALL.load(Ordering::SeqCst) && now.saturating_sub(start_cpu) > limit_ms {
-                die("timeout");
+            } else if IN_CALL.load(Ordering::SeqCst) {
+                let input = INPUT_LEN.load(Ordering::SeqCst);
+                let budget = call_budget_ms(limit_ms, input);
+                let used = now.saturating_sub(start_cpu);
+                if used > budget {
+                    die_with("timeout", &format!(",\"cpu_ms\":{used},\"budget_ms\":{budget},\"input_len\":{input}"));
+                }
             }
         }
     });
